@@ -236,3 +236,66 @@ func VerifH_C12_nestedFieldPermutation() {
 	}
 	vCover("permuted")
 }
+
+// C12.K7: MergeRowGroups with an explicit target schema converts every input to
+// it: inputs with fewer columns get nulls (optional) or zeros (required) in the
+// columns they lack, common columns keep their values, and no row is lost or
+// reordered within its input.
+type verifWideK struct {
+	A int64  `parquet:"a"`
+	B int32  `parquet:"b,optional"`
+	C string `parquet:"c"`
+}
+
+type verifNarrowK struct {
+	A int64 `parquet:"a"`
+}
+
+func VerifH_C12_mergeIntoSchema() {
+	vUnwind(1 << 14)
+	wide := NewGenericBuffer[verifWideK]()
+	narrow := NewGenericBuffer[verifNarrowK]()
+	w := []verifWideK{{A: int64(vI8("a0")), B: 5, C: "x" + vString("c0", 1)}, {A: 40, B: int32(vI8("b1")), C: "y"}}
+	nrw := []verifNarrowK{{A: int64(vI8("a2"))}}
+	if _, err := wide.Write(w); err != nil {
+		vAssert(false, "wide buffer accepts rows")
+		return
+	}
+	if _, err := narrow.Write(nrw); err != nil {
+		vAssert(false, "narrow buffer accepts rows")
+		return
+	}
+	target := SchemaOf(verifWideK{})
+	inputs := []RowGroup{wide, narrow}
+	if vChoose("narrowFirst", 0, 1) == 1 {
+		inputs = []RowGroup{narrow, wide}
+	}
+	m, err := MergeRowGroups(inputs, target)
+	if err != nil {
+		vAssert(false, "row groups with compatible schemas merge")
+		return
+	}
+	vAssert(m.NumRows() == 3, "the merge holds every row")
+	r := NewGenericRowGroupReader[verifWideK](m)
+	out := make([]verifWideK, 4)
+	n, _ := r.Read(out)
+	r.Close()
+	vAssert(n == 3, "every row is read from the merge")
+	if n != 3 {
+		return
+	}
+	// without sorting columns the merge is the concatenation of its inputs
+	var wideRows []verifWideK
+	var narrowRow verifWideK
+	if inputs[0] == RowGroup(narrow) {
+		narrowRow, wideRows = out[0], out[1:3]
+	} else {
+		wideRows, narrowRow = out[0:2], out[2]
+	}
+	for i := range w {
+		vAssert(wideRows[i] == w[i], "rows of the input that has every column keep all their values")
+	}
+	vAssert(narrowRow.A == nrw[0].A, "common column of the narrower input keeps its value")
+	vAssert(narrowRow.B == 0 && narrowRow.C == "", "columns the narrower input lacks come back null or zero")
+	vCover("merged into schema")
+}
